@@ -198,4 +198,48 @@ theorem init_timeset_eq (a : Args) (bh bm bs : Option (List Int))
     | error e => rfl
     | ok l => simp [okSomeT]
 
+/-! ### the BYDAY split -/
+
+theorem init_byweekday_loop_eq (freq : Int) (l : List (Int × Int)) (p : List Int) (q : List (Int × Int)) :
+    Gen.init_byweekday_loop1 freq l (some p) (some q) =
+      .ok (some (((l.filter (fun w => w.2 == 0 || decide (freq > 1))).map (·.1)).foldl setAdd p),
+           some ((l.filter (fun w => !(w.2 == 0 || decide (freq > 1)))).foldl setAdd q)) := by
+  induction l generalizing p q with
+  | nil => rfl
+  | cons w ws ih =>
+    simp only [Gen.init_byweekday_loop1, the_some]
+    by_cases h : (¬ (w.2 ≠ 0)) ∨ freq > 1
+    · have hb : (w.2 == 0 || decide (freq > 1)) = true := by
+        rcases h with h | h
+        · have : w.2 = 0 := Classical.byContradiction fun e => h e
+          simp [this]
+        · simp [h]
+      simp only [h, if_true, ih, List.filter_cons, hb, List.map_cons, List.foldl_cons, Bool.not_true, Bool.false_eq_true, if_false]
+    · have hb : (w.2 == 0 || decide (freq > 1)) = false := by
+        have h1 : w.2 ≠ 0 := Classical.byContradiction fun e => h (Or.inl e)
+        have h2 : ¬ freq > 1 := fun e => h (Or.inr e)
+        simp [h1, h2]
+      simp only [h, if_false, ih, List.filter_cons, hb, Bool.false_eq_true, Bool.not_false, if_true, List.foldl_cons]
+
+/-- the BYDAY block: plain members (ints, `MO`, and every `MO(n)` above MONTHLY) and nth members, each a sorted set,
+    `None` for an empty part — the fields `byweekday` / `bynweekday` of `construct`, on the argument after the defaults -/
+theorem init_byweekday_eq (a : Args) :
+    Gen.init_byweekday a.freq (weekdayArg a) = .ok (byweekdayOf a, bynweekdayOf a) := by
+  unfold Gen.init_byweekday byweekdayOf bynweekdayOf
+  cases weekdayArg a with
+  | none => simp [pure, Except.pure]
+  | some l =>
+    have e1 : plainWeekdays a l = ((l.filter (fun w => w.2 == 0 || decide (a.freq > 1))).map (·.1)).foldl setAdd [] := by
+      unfold plainWeekdays; rw [dedup_eq_foldl]; rfl
+    have e2 : nthWeekdays a l = (l.filter (fun w => !(w.2 == 0 || decide (a.freq > 1)))).foldl setAdd [] := by
+      unfold nthWeekdays; rw [dedup_eq_foldl]; rfl
+    simp only [reduceCtorEq, if_false, the_some, bind, Except.bind, init_byweekday_loop_eq, ← e1, ← e2, pure, Except.pure]
+    by_cases hp : (plainWeekdays a l).isEmpty = true
+    · simp [hp]
+    · have hp' : (plainWeekdays a l).isEmpty = false := by simpa using hp
+      by_cases hn : (nthWeekdays a l).isEmpty = true
+      · simp [hp', hn]
+      · have hn' : (nthWeekdays a l).isEmpty = false := by simpa using hn
+        simp [hp', hn']
+
 end RRuleGen
